@@ -516,7 +516,7 @@ pub fn drive_main(args: &[String]) -> i32 {
         .unwrap_or_default();
     let mut exit = 0;
     let mut printed: HashSet<(String, String, String)> = HashSet::new();
-    let mut nviol = 0;
+    let mut nviol: u64 = 0;
     let mut nknown = 0;
     for (v, path) in &total.violations {
         let key = (v.prop.clone(), v.clause.clone(), v.sig.clone());
@@ -579,6 +579,29 @@ pub fn drive_main(args: &[String]) -> i32 {
         "wall_s": wall,
         "violations": nviol,
     });
+    // C16: the enable-less build was run by run.sh just before; fold its result in
+    let mut ev = ev;
+    if prop == "C16" {
+        let p = format!("{}/target-disabled/c16-disabled.json", verif_dir());
+        match std::fs::read_to_string(&p).ok().and_then(|s| serde_json::from_str::<serde_json::Value>(&s).ok()) {
+            Some(d) => {
+                if let Some(vs) = d["violations"].as_array() {
+                    for x in vs {
+                        println!("VIOLATION property=C16 replay={}", x["replay"].as_str().unwrap_or("?"));
+                        println!("  clause=C16.disabled sig=not-inert :: {}", x["problems"]);
+                        exit = 1;
+                        nviol += 1;
+                    }
+                }
+                ev["violations"] = serde_json::json!(nviol);
+                ev["coverage"]["disabled_build"] = d;
+            }
+            None => {
+                eprintln!("HARNESS ERROR: no result of the enable-less build at {}", p);
+                harness_error = true;
+            }
+        }
+    }
     let evdir = format!("{}/evidence", verif_dir());
     std::fs::create_dir_all(&evdir).ok();
     std::fs::write(format!("{}/{}.json", evdir, prop), serde_json::to_string_pretty(&ev).unwrap()).expect("write evidence");
